@@ -18,6 +18,7 @@ from ..monitor import call_real, describe_exc, reach
 
 ID = 'C20'
 LEVEL = 'exploration'
+DEBUG_TOGGLE = True  # runner flips the library debug flag every 97 monitored executions
 TECHNIQUE = 'runtime monitoring: spy on OuterEnv.step recording the executed action; shadow inner environment with the same seed driven functionally, whose converted observations/states, rewards and flags are compared with what GymEnvironment / GymStateWrapper return; advertised gym spaces checked with contains() and against the conversion of the current representation'
 LEVEL_TEXT = ('For every shipped config wrapped directly, through the registered entry point with the registered kwargs and through '
               'gym.make(id, disable_env_checker=True): random action-index sequences are run with a spy asserting that index i '
@@ -210,7 +211,7 @@ def run_route(ctx, route, name, path, seed, nsteps):
             return
         s, r2, d2 = twin.functional_step(s, want_action)
         o = twin.functional_observation(s)
-        if repr(r) != repr(r2) or done is not d2:
+        if repr(r) != repr(r2) or bool(done) != bool(d2):
             ctx.violation('adapter', 'step.reward_or_flag_differs', f'{label}: step returned ({r!r},{done!r}), inner environment gives ({r2!r},{d2!r})',
                           'gym_case', payload)
         if not check_obs(got, o, 'step'):
@@ -286,7 +287,7 @@ def state_wrapper(ctx, name, path, seed, nsteps):
             ctx.violation('adapter', 'state_wrapper.info_observation', f'{label}: info["observation"] is not the observation representation',
                           'gym_case', payload)
             return
-        if repr(r) != repr(r2) or done is not d2:
+        if repr(r) != repr(r2) or bool(done) != bool(d2):
             ctx.violation('adapter', 'state_wrapper.reward_or_flag', f'{label}: ({r!r},{done!r}) vs inner ({r2!r},{d2!r})', 'gym_case', payload)
         okc, inside = call_real(wrapper.observation_space.contains, got)
         if not okc or not inside:
